@@ -100,6 +100,34 @@ def parse_counts(text):
     return int(m.group(1)), int(m.group(2))
 
 
+_SRC = {}
+def _src(module, line, c0, c1):
+    if module not in _SRC:
+        for d in (SPEC, os.path.join(SPEC, "proofs")):
+            f = os.path.join(d, module + ".tla")
+            if os.path.exists(f):
+                _SRC[module] = open(f).read().splitlines()
+                break
+        else:
+            _SRC[module] = []
+    L = _SRC[module]
+    return L[line - 1][c0 - 1:c1].strip() if 0 < line <= len(L) else ""
+
+
+def never_evaluated(text):
+    """expressions of the specification that TLC (-coverage 1) never evaluated: `line a, col b to line c, col d of module M: 0`"""
+    out = []
+    seen = set()
+    for m in re.finditer(r"line (\d+), col (\d+) to line (\d+), col (\d+) of module (\w+)>?: 0(?::0)?\s*$", text, re.M):
+        a, b, c, d, mod = int(m.group(1)), int(m.group(2)), int(m.group(3)), int(m.group(4)), m.group(5)
+        key = (mod, a, b, c, d)
+        if key in seen:
+            continue
+        seen.add(key)
+        out.append("%s:%d:%d  %s" % (mod, a, b, _src(mod, a, b, d if c == a else 200)[:100]))
+    return out
+
+
 def model_check(module, cfg, workdir, workers=8, timeout=1500, coverage=False):
     """S: exhaustive run of a design model. A failure here is a defect of the
     specification (tool error), never a verdict about the code."""
